@@ -168,6 +168,57 @@ def _adders_add(ctx) -> list[Inst]:
     return out
 
 
+REMOVE_FUNCS = [
+    ('AttackGraph.remove_node', 'nodes', 'node', ('C09', 'C13')),
+    ('AttackGraph.remove_attacker', 'attackers', 'attacker', ('C09', 'C11')),
+    ('Model.remove_asset', 'assets', 'asset', ('C05',)),
+    ('Model.remove_association', 'associations', 'association', ('C05',)),
+]
+
+
+def _removers_remove_that(ctx) -> list[Inst]:
+    """REMOVES  a remove_* function takes THE object it was given out of the primary container: `.remove(obj)` or a
+    position found by identity / equality search (`C.index(obj)`).  A position computed another way (bisect on an id
+    under the assumption that the list is sorted, a remembered index) removes whatever sits there."""
+    from ..core import own_nodes
+    out = []
+    for (fname, cont, objp, props) in REMOVE_FUNCS:
+        if not ctx.prog.has_func(fname):
+            continue
+        f = ctx.prog.func(fname)
+        rel = f.module.relpath
+        construct = f'REMOVES: {fname} removes the given object from {cont}'
+
+        def on_cont(x):
+            return isinstance(x, ast.Attribute) and x.attr == cont and isinstance(x.value, ast.Name) and x.value.id == f.self_name
+        for n in own_nodes(f.node):
+            pos = None
+            if isinstance(n, ast.Delete):
+                for t in n.targets:
+                    if isinstance(t, ast.Subscript) and on_cont(t.value):
+                        pos = t.slice
+            elif isinstance(n, ast.Call) and isinstance(n.func, ast.Attribute) and n.func.attr == 'pop' and on_cont(n.func.value) and n.args:
+                pos = n.args[0]
+            elif isinstance(n, ast.Call) and isinstance(n.func, ast.Attribute) and n.func.attr == 'remove' and on_cont(n.func.value):
+                out.append(Inst(RULE, f.short, construct, 'ok', msg=stmt_text(n, 50), file=rel, line=n.lineno, props=props))
+                continue
+            if pos is None:
+                continue
+            by_search = isinstance(pos, ast.Call) and isinstance(pos.func, ast.Attribute) and pos.func.attr == 'index' \
+                and on_cont(pos.func.value) and pos.args and isinstance(pos.args[0], ast.Name) and pos.args[0].id == objp
+            if by_search:
+                out.append(Inst(RULE, f.short, construct, 'ok', msg=stmt_text(n, 50), file=rel, line=n.lineno, props=props))
+            else:
+                out.append(Inst(
+                    RULE, f.short, construct, 'violation',
+                    msg=(f"'{stmt_text(n, 70)}' deletes the element at a computed position instead of '{objp}' itself: "
+                         f"when {cont} is not ordered the way the computation assumes (an id re-used after a removal, a "
+                         f"file listing elements out of order) another object is dropped and '{objp}' stays listed, "
+                         f"while the indexes forget '{objp}'"),
+                    file=rel, line=n.lineno, props=props))
+    return out
+
+
 def _key_agreement(ctx) -> list[Inst]:
     """KEY: an index that is filled under `obj.<attr>` is emptied under the same attribute of the object removed:
     `del D[o.name]` / `D.pop(o.name, None)` against `D[o.full_name] = o` leaves the entry behind (or removes another
@@ -304,6 +355,7 @@ def run(ctx) -> list[Inst]:
     # ------------------------------------------------------------------ KEY
     insts += _key_agreement(ctx)
     insts += _adders_add(ctx)
+    insts += _removers_remove_that(ctx)
     # ------------------------------------------------------------------ RESET
     for c in prog.classes.values():
         init = c.methods.get('__init__')
